@@ -496,6 +496,12 @@ func evalC16(h *History) *Outcome {
 			anyCycle = true
 		}
 	}
+	// a registration issued by an invoked function's body reports cycles too
+	for _, np := range c.R.W.NestedProv {
+		if verdictOf(np.Facts) == VCycle {
+			anyCycle = true
+		}
+	}
 	if c.R3 || c.Diverged >= 0 {
 		// decorator-introduced keys exist only after the decorator ran: their
 		// visibility depends on execution order by design (DESIGN §9 R3)
@@ -599,6 +605,11 @@ func evalC16(h *History) *Outcome {
 		cyc := false
 		for _, x := range tr.Res {
 			if x.Verdict == VCycle {
+				cyc = true
+			}
+		}
+		for _, np := range tr.W.NestedProv {
+			if verdictOf(np.Facts) == VCycle {
 				cyc = true
 			}
 		}
